@@ -3,7 +3,9 @@
 package rules
 
 import (
+	"runtime"
 	"sort"
+	"strings"
 
 	"ibcheck/eng"
 	"ibcheck/rep"
@@ -47,7 +49,33 @@ func Run(prop string, c *Ctx) bool {
 	if !ok {
 		return false
 	}
-	f(c)
+	// a rule that panics on code it does not expect must fail its property, not the process:
+	// the evidence is still written and the other properties still run
+	func() {
+		defer func() {
+			if x := recover(); x != nil {
+				buf := make([]byte, 4096)
+				buf = buf[:runtime.Stack(buf, false)]
+				c.R.Fatal("CHECKER-PANIC %v — the rule set met code it cannot analyse; stack: %s", x, firstFrames(string(buf)))
+			}
+		}()
+		f(c)
+	}()
 	c.finishAnchors()
 	return true
+}
+
+// firstFrames keeps the rule-file frames of a stack trace.
+func firstFrames(st string) string {
+	var out []string
+	for _, ln := range strings.Split(st, "\n") {
+		ln = strings.TrimSpace(ln)
+		if strings.Contains(ln, "/ibcheck/rules/") && strings.Contains(ln, ".go:") {
+			out = append(out, ln)
+		}
+		if len(out) >= 3 {
+			break
+		}
+	}
+	return strings.Join(out, " <- ")
 }
